@@ -1,4 +1,5 @@
 import DaeVerif.C15.Model
+/-! Helper definitions and lemmas for C15 (invariants of the alive set and their preservation). -/
 namespace DaeVerif.C15
 
 def ASet.ds (s : ASet) : List Nat := s.entries.map (·.d)
@@ -31,9 +32,6 @@ theorem idxInv_join (s : ASet) (d : Nat) (h : IdxInv s) (hd : d < s.n) (hn : ∀
     grind
   · exact h.noPanic
 
-end DaeVerif.C15
-
-namespace DaeVerif.C15
 
 theorem ds_length (s : ASet) : s.ds.length = s.entries.length := by simp [ASet.ds]
 
@@ -82,9 +80,6 @@ theorem idxInv_removeAt (s : ASet) (d k : Nat) (h : IdxInv s) (hd : d < s.n) (hk
       grind
     · exact hp
 
-end DaeVerif.C15
-
-namespace DaeVerif.C15
 
 theorem idxInv_congr {s s' : ASet} (h : IdxInv s) (hn : s'.n = s.n) (hi : s'.idx = s.idx)
     (hds : s'.ds = s.ds) (hp : s'.panicked = s.panicked) : IdxInv s' := by
@@ -172,5 +167,737 @@ theorem mem_removeAt {s : ASet} {d k : Nat} (h : IdxInv s) (hd : d < s.n) (hk : 
     · rintro ⟨⟨j, hj⟩, hne'⟩
       refine ⟨j, ?_⟩
       grind
+
+
+/-- accumulator invariant of the minimum scans w.r.t. the entries already seen -/
+def ScanP (excl : Option Nat) (seen : List Entry) (acc : Option Nat × Int) : Prop :=
+  acc.2 ≤ hour ∧
+  (acc.1 = none → acc.2 = hour) ∧
+  (∀ d, acc.1 = some d → (⟨d, acc.2⟩ : Entry) ∈ seen ∧ excl ≠ some d ∧ acc.2 < hour) ∧
+  (∀ e ∈ seen, excl ≠ some e.d → acc.2 ≤ e.sl)
+
+theorem scan_fold (excl : Option Nat) (es : List Entry) :
+    ∀ (seen : List Entry) (acc : Option Nat × Int), ScanP excl seen acc →
+      ScanP excl (seen ++ es) (es.foldl (scanStep excl) acc) := by
+  induction es with
+  | nil => intro seen acc h; simpa using h
+  | cons e es ih =>
+    intro seen acc h
+    have : seen ++ e :: es = (seen ++ [e]) ++ es := by simp
+    rw [this, List.foldl_cons]
+    apply ih
+    obtain ⟨h1, h2, h3, h4⟩ := h
+    unfold scanStep
+    split
+    · refine ⟨h1, h2, ?_, ?_⟩
+      · intro d hd; have := h3 d hd; simp [this]
+      · intro e' he' hc
+        simp at he'
+        rcases he' with he' | he'
+        · exact h4 e' he' hc
+        · subst he'; contradiction
+    · split
+      · rename_i hne hlt
+        refine ⟨by simp; omega, by simp, ?_, ?_⟩
+        · intro d hd
+          simp at hd
+          subst hd
+          simp
+          exact ⟨hne, by omega⟩
+        · intro e' he' hc
+          simp at he'
+          rcases he' with he' | he'
+          · have := h4 e' he' hc; simp; omega
+          · subst he'; simp
+      · rename_i hne hlt
+        refine ⟨h1, h2, ?_, ?_⟩
+        · intro d hd; have := h3 d hd; simp [this]
+        · intro e' he' hc
+          simp at he'
+          rcases he' with he' | he'
+          · exact h4 e' he' hc
+          · subst he'; omega
+
+theorem scanMin_spec (es : List Entry) (excl : Option Nat) : ScanP excl es (scanMin es excl) := by
+  have := scan_fold excl es [] (none, hour) ⟨by simp, by simp, by simp, by simp⟩
+  simpa [scanMin] using this
+
+
+/-- the sorting latency the set should hold for an alive `d`: measurement + offset, `0` when unmeasured -/
+def expSl (s : ASet) (d : Nat) : Int :=
+  match s.lat d with
+  | some r => r + s.offs d
+  | none => 0
+
+/-- the part of the invariant that does not mention the cached best -/
+structure BInv (s : ASet) : Prop where
+  idx : IdxInv s
+  tol0 : 0 ≤ s.tol
+  slBound : ∀ e ∈ s.entries, e.sl < hour
+  latCons : s.policy.isMin = true → ∀ e ∈ s.entries, e.sl = expSl s e.d
+
+/-- `e` beats the cached best latency `L` by the tolerance or more -/
+def beats (tol : Int) (sl L : Int) : Prop := sl < L ∧ sl + tol ≤ L
+
+structure SInv (s : ASet) : Prop extends BInv s where
+  nonMin : s.policy.isMin = false → s.minD = none
+  nilHour : s.minD = none → s.minL = hour
+  nilEmpty : s.policy.isMin = true → s.minD = none → s.entries = []
+  tolBound : s.policy.isMin = true → ∀ e ∈ s.entries, s.lat e.d ≠ none → ¬ beats s.tol e.sl s.minL
+  best : ∀ d, s.minD = some d →
+    ∃ e ∈ s.entries, e.d = d ∧ (e.sl = s.minL ∨ (s.minL = hour ∧ s.lat d = none))
+
+theorem hour_pos : (0 : Int) < hour := by decide
+
+/-! ### record -/
+
+theorem record_alive {s : ASet} {d k : Nat} (raw : Int) (h : IdxInv s) (hd : d < s.n) (hk : s.idx d = .at k) :
+    record s d raw = { s with lat := upd s.lat d (some raw), entries := setSl s.entries k (raw + s.offs d) } := by
+  have hdk := h.fwd d k hd hk
+  have hklt : k < s.entries.length := by
+    have := (List.getElem?_eq_some_iff.mp hdk).1; simpa [ASet.ds] using this
+  unfold record
+  rw [hk]
+  simp only
+  rw [if_neg (by omega)]
+
+theorem record_dead {s : ASet} {d : Nat} (raw : Int) (hk : ∀ k, s.idx d ≠ .at k) :
+    record s d raw = { s with lat := upd s.lat d (some raw) } := by
+  unfold record
+  split
+  · rename_i k hk'; exact absurd hk' (hk k)
+  · rfl
+
+theorem ds_setSl (es : List Entry) (k : Nat) (sl : Int) : (setSl es k sl).map (·.d) = es.map (·.d) := by
+  apply List.ext_getElem?
+  intro i
+  simp only [setSl, List.getElem?_map, List.getElem?_modify]
+  cases es[i]? <;> simp <;> split <;> rfl
+
+theorem mem_setSl {s : ASet} {d k : Nat} (h : IdxInv s) (hd : d < s.n) (hk : s.idx d = .at k) (sl : Int) (e : Entry) :
+    e ∈ setSl s.entries k sl ↔ (e ∈ s.entries ∧ e.d ≠ d) ∨ e = ⟨d, sl⟩ := by
+  have hf := h.fwd
+  have hb := h.bwd
+  have hdk := hf d k hd hk
+  simp only [ASet.ds, List.getElem?_map] at hf hb hdk
+  simp only [List.mem_iff_getElem?, setSl, List.getElem?_modify]
+  constructor
+  · rintro ⟨j, hj⟩
+    cases hg : s.entries[j]? with
+    | none => simp [hg] at hj
+    | some e0 =>
+      simp [hg] at hj
+      by_cases hkj : k = j
+      · subst hkj
+        right
+        rw [hg] at hdk; simp at hdk
+        rw [if_pos rfl] at hj
+        rw [← hj, ← hdk]
+      · left
+        rw [if_neg hkj] at hj
+        subst hj
+        refine ⟨⟨j, hg⟩, ?_⟩
+        intro hed
+        have := hb j e0.d (by simp [hg])
+        rw [hed, hk] at this
+        cases this.2
+        exact hkj rfl
+  · rintro (⟨⟨j, hj⟩, hne⟩ | he)
+    · refine ⟨j, ?_⟩
+      have hkj : k ≠ j := by
+        intro hkj; subst hkj; rw [hj] at hdk; simp at hdk; exact hne hdk
+      simp [hj, hkj]
+    · refine ⟨k, ?_⟩
+      cases hg : s.entries[k]? with
+      | none => simp [hg] at hdk
+      | some e0 =>
+        rw [hg] at hdk; simp at hdk
+        simp [he, ← hdk]
+
+
+theorem idxInv_record {s : ASet} {d : Nat} (raw : Int) (h : IdxInv s) (hd : d < s.n) : IdxInv (record s d raw) := by
+  cases hk : s.idx d with
+  | «at» k =>
+    rw [record_alive raw h hd hk]
+    exact idxInv_congr h rfl rfl (by simp [ASet.ds, ds_setSl]) rfl
+  | init => rw [record_dead raw (by simp [hk])]; exact idxInv_congr h rfl rfl rfl rfl
+  | notAlive => rw [record_dead raw (by simp [hk])]; exact idxInv_congr h rfl rfl rfl rfl
+
+/-- entries of `record`: the entry of `d` (if any) gets the new sorting latency, the others stay -/
+theorem mem_record {s : ASet} {d : Nat} (raw : Int) (h : IdxInv s) (hd : d < s.n) (e : Entry) :
+    e ∈ (record s d raw).entries ↔
+      (e ∈ s.entries ∧ e.d ≠ d) ∨ (e = ⟨d, raw + s.offs d⟩ ∧ ∃ k, s.idx d = .at k) := by
+  cases hk : s.idx d with
+  | «at» k =>
+    rw [record_alive raw h hd hk]
+    simp only [mem_setSl h hd hk]
+    simp
+  | init =>
+    rw [record_dead raw (by simp [hk])]
+    have : ¬ ∃ e ∈ s.entries, e.d = d := by rw [← alive_iff h hd]; simp [hk]
+    simp only [reduceCtorEq, exists_false, and_false, or_false]
+    constructor
+    · intro he; exact ⟨he, fun hed => this ⟨e, he, hed⟩⟩
+    · exact fun h => h.1
+  | notAlive =>
+    rw [record_dead raw (by simp [hk])]
+    have : ¬ ∃ e ∈ s.entries, e.d = d := by rw [← alive_iff h hd]; simp [hk]
+    simp only [reduceCtorEq, exists_false, and_false, or_false]
+    constructor
+    · intro he; exact ⟨he, fun hed => this ⟨e, he, hed⟩⟩
+    · exact fun h => h.1
+
+theorem record_frame (s : ASet) (d : Nat) (raw : Int) :
+    (record s d raw).n = s.n ∧ (record s d raw).tol = s.tol ∧ (record s d raw).offs = s.offs ∧
+    (record s d raw).policy = s.policy ∧ (record s d raw).idx = s.idx ∧
+    (record s d raw).lat = upd s.lat d (some raw) ∧ (record s d raw).minD = s.minD ∧
+    (record s d raw).minL = s.minL := by
+  unfold record
+  split
+  · split <;> simp
+  · simp
+
+theorem binv_record {s : ASet} {d : Nat} {raw : Int} (hi : IdxInv s) (hd : d < s.n) (ht : 0 ≤ s.tol)
+    (hsl : ∀ e ∈ s.entries, e.sl < hour)
+    (hlc : s.policy.isMin = true → ∀ e ∈ s.entries, e.d ≠ d → e.sl = expSl s e.d)
+    (hb : raw + s.offs d < hour) : BInv (record s d raw) := by
+  obtain ⟨f1, f2, f3, f4, f5, f6, f7, f8⟩ := record_frame s d raw
+  refine ⟨idxInv_record raw hi hd, by rw [f2]; exact ht, ?_, ?_⟩
+  · intro e he
+    rcases (mem_record raw hi hd e).mp he with ⟨he, _⟩ | ⟨he, _⟩
+    · exact hsl e he
+    · subst he; exact hb
+  · intro hm e he
+    rw [f4] at hm
+    rcases (mem_record raw hi hd e).mp he with ⟨he', hne⟩ | ⟨he', _⟩
+    · rw [hlc hm e he' hne]
+      simp [expSl, f6, f3, upd, hne]
+    · subst he'
+      simp [expSl, f6, f3, upd]
+
+theorem binv_join {s : ASet} {d : Nat} (h : BInv s) (hd : d < s.n) (hn : ∀ k, s.idx d ≠ .at k)
+    (hl : s.policy.isMin = true → s.lat d = none) : BInv (join s d) := by
+  refine ⟨idxInv_join s d h.idx hd hn, h.tol0, ?_, ?_⟩
+  · intro e he
+    rcases (mem_join s d e).mp he with he | he
+    · exact h.slBound e he
+    · subst he; exact hour_pos
+  · intro hm e he
+    have hm' : s.policy.isMin = true := hm
+    rcases (mem_join s d e).mp he with he | he
+    · have := h.latCons hm' e he
+      simpa [expSl, join] using this
+    · subst he
+      simp [expSl, join, hl hm']
+
+theorem removeAt_frame0 (s : ASet) (d k : Nat) :
+    (removeAt s d k).n = s.n ∧ (removeAt s d k).tol = s.tol ∧ (removeAt s d k).offs = s.offs ∧
+    (removeAt s d k).policy = s.policy ∧ (removeAt s d k).lat = s.lat ∧
+    (removeAt s d k).minD = s.minD ∧ (removeAt s d k).minL = s.minL := by
+  unfold removeAt
+  dsimp only
+  repeat' split
+  all_goals simp
+
+theorem removeAt_frame {s : ASet} {d k : Nat} (h : IdxInv s) (hd : d < s.n) (hk : s.idx d = .at k) :
+    (removeAt s d k).n = s.n ∧ (removeAt s d k).tol = s.tol ∧ (removeAt s d k).offs = s.offs ∧
+    (removeAt s d k).policy = s.policy ∧ (removeAt s d k).lat = s.lat ∧
+    (removeAt s d k).minD = s.minD ∧ (removeAt s d k).minL = s.minL ∧
+    (∀ k', (removeAt s d k).idx d ≠ .at k') := by
+  obtain ⟨f1, f2, f3, f4, f5, f6, f7⟩ := removeAt_frame0 s d k
+  have hi := idxInv_removeAt s d k h hd hk
+  have hmem := fun e => mem_removeAt h hd hk e
+  refine ⟨f1, f2, f3, f4, f5, f6, f7, ?_⟩
+  intro k' hk'
+  have := (alive_iff hi (by rw [f1]; exact hd)).mp ⟨k', hk'⟩
+  obtain ⟨e, he, hed⟩ := this
+  exact ((hmem e).mp he).2 hed
+
+theorem binv_removeAt {s : ASet} {d k : Nat} (h : BInv s) (hd : d < s.n) (hk : s.idx d = .at k) :
+    BInv (removeAt s d k) := by
+  obtain ⟨f1, f2, f3, f4, f5, f6, f7, f8⟩ := removeAt_frame h.idx hd hk
+  refine ⟨idxInv_removeAt s d k h.idx hd hk, by rw [f2]; exact h.tol0, ?_, ?_⟩
+  · intro e he
+    exact h.slBound e ((mem_removeAt h.idx hd hk e).mp he).1
+  · intro hm e he
+    rw [f4] at hm
+    have := h.latCons hm e ((mem_removeAt h.idx hd hk e).mp he).1
+    simpa [expSl, f5, f3] using this
+
+
+theorem gate_iff (tol x cur : Int) : gate tol x cur = true ↔ x ≤ cur ∧ (cur < tol ∨ x ≤ cur - tol) := by
+  simp [gate]
+
+theorem binv_of_eq {s s' : ASet} (h : BInv s) (hn : s'.n = s.n) (ht : s'.tol = s.tol) (ho : s'.offs = s.offs)
+    (hp : s'.policy = s.policy) (hi : s'.idx = s.idx) (hl : s'.lat = s.lat) (he : s'.entries = s.entries)
+    (hpn : s'.panicked = s.panicked) : BInv s' := by
+  refine ⟨idxInv_congr h.idx hn hi (by simp [ASet.ds, he]) hpn, by rw [ht]; exact h.tol0, ?_, ?_⟩
+  · rw [he]; exact h.slBound
+  · rw [hp, he]; intro hm e hee; rw [h.latCons hm e hee]; simp [expSl, hl, ho]
+
+theorem sinv_calcMin_none {s : ASet} (hb : BInv s) (hnm : s.policy.isMin = true) (hD : s.minD = none) :
+    SInv (calcMin s) := by
+  have hsp := scanMin_spec s.entries none
+  obtain ⟨h1, h2, h3, h4⟩ := hsp
+  have hc : calcMin s = { s with minL := (scanMin s.entries none).2, minD := (scanMin s.entries none).1 } := by
+    unfold calcMin; rw [hD]
+  rw [hc]
+  refine { toBInv := binv_of_eq hb rfl rfl rfl rfl rfl rfl rfl rfl, nonMin := ?_, nilHour := ?_, nilEmpty := ?_, tolBound := ?_, best := ?_ }
+  · intro h; simp only at h; rw [hnm] at h; cases h
+  · intro h; exact h2 h
+  · intro _ h
+    simp only at h ⊢
+    apply List.eq_nil_iff_forall_not_mem.mpr
+    intro e he
+    have := h4 e he (by simp)
+    have := hb.slBound e he
+    have := h2 h
+    omega
+  · intro _ e he _ hbt
+    simp only at he hbt
+    have := h4 e he (by simp)
+    unfold beats at hbt
+    omega
+  · intro d hd
+    simp only at hd ⊢
+    have := h3 d hd
+    exact ⟨⟨d, (scanMin s.entries none).2⟩, this.1, rfl, Or.inl rfl⟩
+
+theorem sinv_calcMin_some {s : ASet} {b : Nat} (hb : BInv s) (hnm : s.policy.isMin = true)
+    (hD : s.minD = some b) (hbest : ∃ e ∈ s.entries, e.d = b ∧ e.sl = s.minL) : SInv (calcMin s) := by
+  have hsp := scanMin_spec s.entries none
+  obtain ⟨h1, h2, h3, h4⟩ := hsp
+  obtain ⟨eb, heb, hebd, hebl⟩ := hbest
+  have hsome : (scanMin s.entries none).1.isSome = true := by
+    cases hr : (scanMin s.entries none).1 with
+    | some m => rfl
+    | none =>
+      have := h2 hr
+      have := h4 eb heb (by simp)
+      have := hb.slBound eb heb
+      omega
+  by_cases hg : gate s.tol (scanMin s.entries none).2 s.minL = true
+  · have hc : calcMin s = { s with minL := (scanMin s.entries none).2, minD := (scanMin s.entries none).1 } := by
+      unfold calcMin; rw [hD]; simp [hsome, hg]
+    rw [hc]
+    refine { toBInv := binv_of_eq hb rfl rfl rfl rfl rfl rfl rfl rfl, nonMin := ?_, nilHour := ?_, nilEmpty := ?_, tolBound := ?_, best := ?_ }
+    · intro h; simp only at h; rw [hnm] at h; cases h
+    · intro h; exact h2 h
+    · intro _ h; simp only at h; rw [h] at hsome; cases hsome
+    · intro _ e he _ hbt
+      simp only at he hbt
+      have := h4 e he (by simp)
+      unfold beats at hbt
+      omega
+    · intro d hd
+      simp only at hd ⊢
+      have := h3 d hd
+      exact ⟨⟨d, (scanMin s.entries none).2⟩, this.1, rfl, Or.inl rfl⟩
+  · have hc : calcMin s = s := by
+      unfold calcMin; rw [hD]; simp [hg]
+    rw [hc]
+    refine { toBInv := hb, nonMin := ?_, nilHour := ?_, nilEmpty := ?_, tolBound := ?_, best := ?_ }
+    · intro h; rw [hnm] at h; cases h
+    · intro h; rw [hD] at h; cases h
+    · intro _ h; rw [hD] at h; cases h
+    · intro _ e he _ hbt
+      have := h4 e he (by simp)
+      unfold beats at hbt
+      apply hg
+      rw [gate_iff]
+      omega
+    · intro d hd
+      rw [hD] at hd; cases hd
+      exact ⟨eb, heb, hebd, Or.inl hebl⟩
+
+
+theorem sinv_decide2_alive {s s1 : ASet} {d : Nat} {raw : Int} (hs : SInv s) (hm : s.policy.isMin = true)
+    (hb1 : BInv s1) (ft : s1.tol = s.tol) (fp : s1.policy = s.policy)
+    (fl : s1.lat = upd s.lat d (some raw)) (fD : s1.minD = s.minD) (fL : s1.minL = s.minL)
+    (hmem : ∀ e, e ∈ s1.entries ↔ (e ∈ s.entries ∧ e.d ≠ d) ∨ e = ⟨d, raw + s.offs d⟩)
+    (hbnd : raw + s.offs d + s.tol < hour) :
+    SInv (decide2 s1 d true (raw + s.offs d) s.minL) := by
+  have htol := hs.tol0
+  have hm1 : s1.policy.isMin = true := by rw [fp]; exact hm
+  have hdmem : (⟨d, raw + s.offs d⟩ : Entry) ∈ s1.entries := (hmem _).mpr (Or.inr rfl)
+  unfold decide2
+  by_cases hg : gate s1.tol (raw + s.offs d) s1.minL = true
+  · -- switch to d
+    simp only [Bool.true_and, hg, if_true]
+    refine { toBInv := binv_of_eq hb1 rfl rfl rfl rfl rfl rfl rfl rfl, nonMin := ?_, nilHour := ?_, nilEmpty := ?_, tolBound := ?_, best := ?_ }
+    · intro h; simp only at h; rw [hm1] at h; cases h
+    · intro h; cases h
+    · intro _ h; cases h
+    · intro _ e he hl hbt
+      simp only at he hl hbt
+      rw [gate_iff, ft, fL] at hg
+      unfold beats at hbt
+      rcases (hmem e).mp he with ⟨he', hne⟩ | he'
+      · have hl' : s.lat e.d ≠ none := by rw [fl] at hl; simpa [upd, hne] using hl
+        have := hs.tolBound hm e he' hl'
+        unfold beats at this
+        rw [ft] at hbt
+        omega
+      · subst he'; simp at hbt
+    · intro d' hd'
+      simp only at hd' ⊢
+      cases hd'
+      exact ⟨_, hdmem, rfl, Or.inl rfl⟩
+  · simp only [Bool.true_and, hg, Bool.false_eq_true, if_false, Bool.not_true, Bool.false_or]
+    have hg' := hg
+    rw [gate_iff, ft, fL] at hg'
+    by_cases hD : s1.minD = some d
+    · rw [if_pos hD]
+      by_cases hw : raw + s.offs d > s.minL
+      · -- best worsened: recompute
+        simp only [hw, decide_true, if_true]
+        exact @sinv_calcMin_some { s1 with minL := raw + s.offs d } d
+          (binv_of_eq hb1 rfl rfl rfl rfl rfl rfl rfl rfl) hm1 hD ⟨_, hdmem, rfl, rfl⟩
+      · simp only [hw, decide_false, Bool.false_eq_true, if_false]
+        refine { toBInv := binv_of_eq hb1 rfl rfl rfl rfl rfl rfl rfl rfl, nonMin := ?_, nilHour := ?_, nilEmpty := ?_, tolBound := ?_, best := ?_ }
+        · intro h; simp only at h; rw [hm1] at h; cases h
+        · intro h; simp only at h; rw [hD] at h; cases h
+        · intro _ h; simp only at h; rw [hD] at h; cases h
+        · intro _ e he hl hbt
+          simp only at he hl hbt
+          unfold beats at hbt
+          rw [ft] at hbt
+          rcases (hmem e).mp he with ⟨he', hne⟩ | he'
+          · have hl' : s.lat e.d ≠ none := by rw [fl] at hl; simpa [upd, hne] using hl
+            have := hs.tolBound hm e he' hl'
+            unfold beats at this
+            omega
+          · subst he'; simp at hbt
+        · intro d' hd'
+          simp only at hd' ⊢
+          rw [hD] at hd'; cases hd'
+          exact ⟨_, hdmem, rfl, Or.inl rfl⟩
+    · rw [if_neg hD]
+      -- nothing changes except d's own entry
+      have hDs : s.minD ≠ none := by
+        intro h
+        have := hs.nilHour h
+        apply hg
+        rw [gate_iff, ft, fL, this]
+        omega
+      refine { toBInv := hb1, nonMin := ?_, nilHour := ?_, nilEmpty := ?_, tolBound := ?_, best := ?_ }
+      · intro h; rw [hm1] at h; cases h
+      · intro h; rw [fD] at h; exact absurd h hDs
+      · intro _ h; rw [fD] at h; exact absurd h hDs
+      · intro _ e he hl hbt
+        unfold beats at hbt
+        rw [ft, fL] at hbt
+        rcases (hmem e).mp he with ⟨he', hne⟩ | he'
+        · have hl' : s.lat e.d ≠ none := by rw [fl] at hl; simpa [upd, hne] using hl
+          have := hs.tolBound hm e he' hl'
+          unfold beats at this
+          omega
+        · subst he'
+          simp only at hbt
+          omega
+      · intro b hb
+        rw [fD] at hb hD
+        obtain ⟨e, he, hed, hel⟩ := hs.best b hb
+        have hne : e.d ≠ d := by rw [hed]; intro h; apply hD; rw [hb, h]
+        refine ⟨e, (hmem e).mpr (Or.inl ⟨he, hne⟩), hed, ?_⟩
+        rw [fL, fl]
+        have : b ≠ d := by rw [← hed]; exact hne
+        simpa [upd, this] using hel
+
+theorem sinv_decide2_dead {s s1 : ASet} {d : Nat} {raw : Int} (hs : SInv s) (hm : s.policy.isMin = true)
+    (hb1 : BInv s1) (ft : s1.tol = s.tol) (fp : s1.policy = s.policy)
+    (fl : s1.lat = upd s.lat d (some raw)) (fD : s1.minD = s.minD) (fL : s1.minL = s.minL)
+    (hmem : ∀ e, e ∈ s1.entries ↔ (e ∈ s.entries ∧ e.d ≠ d)) :
+    SInv (decide2 s1 d false (raw + s.offs d) s.minL) := by
+  have hm1 : s1.policy.isMin = true := by rw [fp]; exact hm
+  unfold decide2
+  simp only [Bool.false_and, Bool.false_eq_true, if_false, Bool.not_false, Bool.true_or, if_true]
+  by_cases hD : s1.minD = some d
+  · rw [if_pos hD]
+    exact @sinv_calcMin_none { s1 with minL := raw + s.offs d, minD := none }
+      (binv_of_eq hb1 rfl rfl rfl rfl rfl rfl rfl rfl) hm1 rfl
+  · rw [if_neg hD]
+    refine { toBInv := hb1, nonMin := ?_, nilHour := ?_, nilEmpty := ?_, tolBound := ?_, best := ?_ }
+    · intro h; rw [hm1] at h; cases h
+    · intro h; rw [fD] at h; rw [fL]; exact hs.nilHour h
+    · intro _ h; rw [fD] at h
+      have := hs.nilEmpty hm h
+      apply List.eq_nil_iff_forall_not_mem.mpr
+      intro e he
+      have := ((hmem e).mp he).1
+      simp_all
+    · intro _ e he hl hbt
+      rw [ft, fL] at hbt
+      obtain ⟨he', hne⟩ := (hmem e).mp he
+      have hl' : s.lat e.d ≠ none := by rw [fl] at hl; simpa [upd, hne] using hl
+      exact hs.tolBound hm e he' hl' hbt
+    · intro b hb
+      rw [fD] at hb hD
+      obtain ⟨e, he, hed, hel⟩ := hs.best b hb
+      have hne : e.d ≠ d := by rw [hed]; intro h; apply hD; rw [hb, h]
+      refine ⟨e, (hmem e).mpr ⟨he, hne⟩, hed, ?_⟩
+      rw [fL, fl]
+      have : b ≠ d := by rw [← hed]; exact hne
+      simpa [upd, this] using hel
+
+
+/-- what the caller of `NotifyLatencyChange` must respect for the full invariant:
+the dialer is a member; a dialer whose latency the set has recorded (under the current policy)
+keeps reporting one; sorting latency + tolerance stays below the `time.Hour` sentinel. -/
+structure NotifyOk (s : ASet) (d : Nat) (snap : Option Int) : Prop where
+  dlt : d < s.n
+  mono : s.policy.isMin = true → s.lat d ≠ none → snap ≠ none
+  bound : ∀ r, snap = some r → r + s.offs d + s.tol < hour
+
+theorem sinv_of_nonmin {s : ASet} (hb : BInv s) (hp : s.policy.isMin = false) (hD : s.minD = none)
+    (hL : s.minL = hour) : SInv s := by
+  refine { toBInv := hb, nonMin := fun _ => hD, nilHour := fun _ => hL, nilEmpty := ?_, tolBound := ?_, best := ?_ }
+  · intro h; rw [hp] at h; cases h
+  · intro h; rw [hp] at h; cases h
+  · intro d h; rw [hD] at h; cases h
+
+theorem join_not_alive_mem {s : ASet} {d : Nat} (h : IdxInv s) (hd : d < s.n) (hn : ∀ k, s.idx d ≠ .at k) :
+    ∀ e ∈ s.entries, e.d ≠ d := by
+  intro e he hed
+  obtain ⟨k, hk⟩ := (alive_iff h hd).mpr ⟨e, he, hed⟩
+  exact hn k hk
+
+theorem sinv_notify {s : ASet} {d : Nat} {alive : Bool} {snap : Option Int} (hs : SInv s)
+    (ok : NotifyOk s d snap) : SInv (notify s d alive snap).1 := by
+  have hi := hs.idx
+  have hd := ok.dlt
+  unfold notify
+  simp only
+  cases hm : s.policy.isMin
+  · -- random / fixed: no measurements, no cached best
+    simp only [Bool.false_eq_true, if_false]
+    have hD := hs.nonMin hm
+    have hL := hs.nilHour hD
+    cases alive
+    · cases hk : s.idx d with
+      | «at» k =>
+        simp only [phase1, Bool.false_eq_true, if_false, hk, hm, Bool.false_and, phase2]
+        obtain ⟨f1, f2, f3, f4, f5, f6, f7, f8⟩ := removeAt_frame hi hd hk
+        exact sinv_of_nonmin (binv_removeAt hs.toBInv hd hk) (by rw [f4]; exact hm) (by rw [f6]; exact hD) (by rw [f7]; exact hL)
+      | init => simpa [phase1, hk, phase2] using hs
+      | notAlive => simpa [phase1, hk, phase2] using hs
+    · cases hk : s.idx d with
+      | «at» k => simpa [phase1, hk, phase2, hm] using hs
+      | init =>
+        simp only [phase1, if_true, hk, phase2, join, hm, Bool.false_and, Bool.and_false, Bool.false_eq_true, if_false]
+        exact sinv_of_nonmin (binv_join hs.toBInv hd (by simp [hk]) (by intro h; rw [hm] at h; cases h)) hm hD hL
+      | notAlive =>
+        simp only [phase1, if_true, hk, phase2, join, hm, Bool.false_and, Bool.and_false, Bool.false_eq_true, if_false]
+        exact sinv_of_nonmin (binv_join hs.toBInv hd (by simp [hk]) (by intro h; rw [hm] at h; cases h)) hm hD hL
+  · simp only [if_true]
+    cases snap with
+    | none =>
+      have hlat : s.lat d = none := by
+        have := ok.mono hm
+        cases hl : s.lat d with
+        | none => rfl
+        | some r => exact absurd rfl (this (by simp [hl]))
+      cases alive
+      · -- death without a measurement
+        by_cases hal : ∃ k, s.idx d = .at k
+        · obtain ⟨k, hk⟩ := hal
+          obtain ⟨f1, f2, f3, f4, f5, f6, f7, f8⟩ := removeAt_frame hi hd hk
+          have hb1 := binv_removeAt hs.toBInv hd hk
+          have hmem := fun e => mem_removeAt hi hd hk e
+          by_cases hD : s.minD = some d
+          · have e1 : (phase1 s d false none).1 = calcMin (resetBest (removeAt s d k)) := by
+              simp [phase1, hk, hm, hD]
+            have hfin : SInv (calcMin (resetBest (removeAt s d k))) :=
+              sinv_calcMin_none (binv_of_eq hb1 rfl rfl rfl rfl rfl rfl rfl rfl) (by simp [resetBest, f4, hm]) rfl
+            simp only [phase2, Bool.false_and, Bool.false_eq_true, if_false]
+            rw [e1]; exact hfin
+          · have e1 : (phase1 s d false none).1 = removeAt s d k := by
+              simp [phase1, hk, hm, hD]
+            simp only [phase2, Bool.false_and, Bool.false_eq_true, if_false]
+            rw [e1]
+            refine { toBInv := hb1, nonMin := ?_, nilHour := ?_, nilEmpty := ?_, tolBound := ?_, best := ?_ }
+            · intro h; rw [f4, hm] at h; cases h
+            · intro h; rw [f6] at h; rw [f7]; exact hs.nilHour h
+            · intro _ h; rw [f6] at h
+              have := hs.nilEmpty hm h
+              apply List.eq_nil_iff_forall_not_mem.mpr
+              intro e he
+              have := ((hmem e).mp he).1
+              simp_all
+            · intro _ e he hl hbt
+              rw [f2, f7] at hbt; rw [f5] at hl
+              exact hs.tolBound hm e ((hmem e).mp he).1 hl hbt
+            · intro b hb
+              rw [f6] at hb
+              obtain ⟨e, he, hed, hel⟩ := hs.best b hb
+              have hne : e.d ≠ d := by rw [hed]; intro h; apply hD; rw [hb, h]
+              exact ⟨e, (hmem e).mpr ⟨he, hne⟩, hed, by rw [f7, f5]; exact hel⟩
+        · have e1 : (phase1 s d false none).1 = s := by
+            cases hk : s.idx d with
+            | «at» k => exact absurd ⟨k, hk⟩ hal
+            | init => simp [phase1, hk]
+            | notAlive => simp [phase1, hk]
+          simp only [phase2, Bool.false_and, Bool.false_eq_true, if_false]
+          rw [e1]; exact hs
+      · -- alive without a measurement
+        by_cases hal : ∃ k, s.idx d = .at k
+        · obtain ⟨k, hk⟩ := hal
+          have e1 : (phase1 s d true none).1 = s := by simp [phase1, hk]
+          have hne : s.minD ≠ none := by
+            intro h
+            have := hs.nilEmpty hm h
+            obtain ⟨e, he, _⟩ := (alive_iff hi hd).mp ⟨k, hk⟩
+            simp [this] at he
+          simp only [phase2]
+          rw [e1]
+          have : s.minD.isNone = false := by cases h : s.minD <;> simp_all
+          simp only [this, Bool.and_false, Bool.false_eq_true, if_false]
+          exact hs
+        · have hn : ∀ k, s.idx d ≠ .at k := fun k hk => hal ⟨k, hk⟩
+          have e1 : (phase1 s d true none).1 = join s d := by
+            cases hk : s.idx d with
+            | «at» k => exact absurd ⟨k, hk⟩ hal
+            | init => simp [phase1, hk]
+            | notAlive => simp [phase1, hk]
+          have hbj := binv_join hs.toBInv hd hn (fun _ => hlat)
+          simp only [phase2]
+          rw [e1]
+          cases hD : s.minD with
+          | none =>
+            have hemp := hs.nilEmpty hm hD
+            have hL := hs.nilHour hD
+            simp only [join, hm, hD, Option.isNone_none, Bool.and_self, if_true]
+            refine { toBInv := binv_of_eq hbj rfl rfl rfl rfl rfl rfl rfl rfl, nonMin := ?_, nilHour := ?_, nilEmpty := ?_, tolBound := ?_, best := ?_ }
+            · intro h; simp only at h; rw [hm] at h; cases h
+            · intro h; cases h
+            · intro _ h; cases h
+            · intro _ e he hl
+              simp only [hemp, List.nil_append, List.mem_singleton] at he hl
+              subst he
+              exact absurd hlat hl
+            · intro b hb
+              simp only at hb ⊢
+              cases hb
+              exact ⟨⟨d, 0⟩, by simp, rfl, Or.inr ⟨hL, hlat⟩⟩
+          | some b =>
+            simp only [join, hm, hD, Option.isNone_some, Bool.and_false, Bool.false_eq_true, if_false]
+            refine { toBInv := binv_of_eq hbj rfl rfl rfl rfl rfl rfl rfl rfl, nonMin := ?_, nilHour := ?_, nilEmpty := ?_, tolBound := ?_, best := ?_ }
+            · intro h; simp only at h; rw [hm] at h; cases h
+            · intro h; cases h
+            · intro _ h; cases h
+            · intro _ e he hl hbt
+              simp only at he hl hbt
+              rcases List.mem_append.mp he with he | he
+              · exact hs.tolBound hm e he hl hbt
+              · simp only [List.mem_singleton] at he; subst he; exact absurd hlat hl
+            · intro b' hb'
+              simp only at hb' ⊢
+              obtain ⟨e, he, hed, hel⟩ := hs.best b hD
+              cases hb'
+              exact ⟨e, by simp [he], hed, hel⟩
+    | some raw =>
+      have hbnd := ok.bound raw rfl
+      have htol := hs.tol0
+      cases alive
+      · -- death / dead with a measurement
+        by_cases hal : ∃ k, s.idx d = .at k
+        · obtain ⟨k, hk⟩ := hal
+          obtain ⟨f1, f2, f3, f4, f5, f6, f7, f8⟩ := removeAt_frame hi hd hk
+          have hb0 := binv_removeAt hs.toBInv hd hk
+          have e1 : (phase1 s d false (some raw)).1 = removeAt s d k := by
+            simp [phase1, hk, hm]
+          simp only [phase2]
+          rw [e1, f3, f7]
+          obtain ⟨g1, g2, g3, g4, g5, g6, g7, g8⟩ := record_frame (removeAt s d k) d raw
+          have hd0 : d < (removeAt s d k).n := by rw [f1]; exact hd
+          have hb1 : BInv (record (removeAt s d k) d raw) :=
+            binv_record hb0.idx hd0 hb0.tol0 hb0.slBound (fun h e he _ => hb0.latCons h e he) (by rw [f3]; omega)
+          apply sinv_decide2_dead hs hm hb1 (by rw [g2, f2]) (by rw [g4, f4]) (by rw [g6, f5]) (by rw [g7, f6]) (by rw [g8, f7])
+          intro e
+          rw [mem_record raw hb0.idx hd0, mem_removeAt hi hd hk]
+          constructor
+          · rintro (⟨⟨h1, h2⟩, _⟩ | ⟨_, k', hk'⟩)
+            · exact ⟨h1, h2⟩
+            · exact absurd hk' (f8 k')
+          · intro h; exact Or.inl ⟨h, h.2⟩
+        · have hn : ∀ k, s.idx d ≠ .at k := fun k hk => hal ⟨k, hk⟩
+          have e1 : (phase1 s d false (some raw)).1 = s := by
+            cases hk : s.idx d with
+            | «at» k => exact absurd ⟨k, hk⟩ hal
+            | init => simp [phase1, hk]
+            | notAlive => simp [phase1, hk]
+          simp only [phase2]
+          rw [e1]
+          obtain ⟨g1, g2, g3, g4, g5, g6, g7, g8⟩ := record_frame s d raw
+          have hb1 : BInv (record s d raw) :=
+            binv_record hi hd hs.tol0 hs.slBound (fun h e he _ => hs.latCons h e he) (by omega)
+          apply sinv_decide2_dead hs hm hb1 g2 g4 g6 g7 g8
+          intro e
+          rw [mem_record raw hi hd]
+          constructor
+          · rintro (⟨h1, h2⟩ | ⟨_, k', hk'⟩)
+            · exact ⟨h1, h2⟩
+            · exact absurd hk' (hn k')
+          · intro h; exact Or.inl h
+      · -- alive with a measurement
+        by_cases hal : ∃ k, s.idx d = .at k
+        · obtain ⟨k, hk⟩ := hal
+          have e1 : (phase1 s d true (some raw)).1 = s := by simp [phase1, hk]
+          simp only [phase2]
+          rw [e1]
+          obtain ⟨g1, g2, g3, g4, g5, g6, g7, g8⟩ := record_frame s d raw
+          have hb1 : BInv (record s d raw) :=
+            binv_record hi hd hs.tol0 hs.slBound (fun h e he _ => hs.latCons h e he) (by omega)
+          apply sinv_decide2_alive hs hm hb1 g2 g4 g6 g7 g8 _ hbnd
+          intro e
+          rw [mem_record raw hi hd]
+          constructor
+          · rintro (h | ⟨h, _⟩)
+            · exact Or.inl h
+            · exact Or.inr h
+          · rintro (h | h)
+            · exact Or.inl h
+            · exact Or.inr ⟨h, k, hk⟩
+        · have hn : ∀ k, s.idx d ≠ .at k := fun k hk => hal ⟨k, hk⟩
+          have e1 : (phase1 s d true (some raw)).1 = join s d := by
+            cases hk : s.idx d with
+            | «at» k => exact absurd ⟨k, hk⟩ hal
+            | init => simp [phase1, hk]
+            | notAlive => simp [phase1, hk]
+          simp only [phase2]
+          rw [e1]
+          have hij := idxInv_join s d hi hd hn
+          have hdj : d < (join s d).n := hd
+          obtain ⟨g1, g2, g3, g4, g5, g6, g7, g8⟩ := record_frame (join s d) d raw
+          have hold := join_not_alive_mem hi hd hn
+          have hb1 : BInv (record (join s d) d raw) := by
+            apply binv_record hij hdj hs.tol0
+            · intro e he
+              rcases (mem_join s d e).mp he with he | he
+              · exact hs.slBound e he
+              · subst he; exact hour_pos
+            · intro h e he hne
+              rcases (mem_join s d e).mp he with he | he
+              · have := hs.latCons h e he
+                simpa [expSl, join] using this
+              · subst he; exact absurd rfl hne
+            · show raw + s.offs d < hour
+              omega
+          have : (join s d).offs = s.offs := rfl
+          have hL : (join s d).minL = s.minL := rfl
+          rw [this, hL]
+          apply sinv_decide2_alive hs hm hb1 g2 g4 g6 g7 g8 _ hbnd
+          intro e
+          rw [mem_record raw hij hdj]
+          constructor
+          · rintro (⟨h1, h2⟩ | ⟨h, _⟩)
+            · rcases (mem_join s d e).mp h1 with h1 | h1
+              · exact Or.inl ⟨h1, h2⟩
+              · subst h1; exact absurd rfl h2
+            · exact Or.inr h
+          · rintro (⟨h1, h2⟩ | h)
+            · exact Or.inl ⟨(mem_join s d e).mpr (Or.inl h1), h2⟩
+            · refine Or.inr ⟨h, s.entries.length, ?_⟩
+              simp [join, upd]
 
 end DaeVerif.C15
